@@ -326,7 +326,7 @@ func TestC03Accept(t *testing.T) {
 		}
 		if msg != "" {
 			rec.Violation("accept", msg, c)
-			rt.Fatalf("%s", msg)
+			rt.Fatalf("property violated (details in the replay file)")
 		}
 	})
 }
